@@ -54,6 +54,7 @@ type Config struct {
 	Name string
 	Func string
 	Args []Arg
+	Harness *Harness `json:"-"` // nil: the spec's main harness
 	// Setup, if set, customises the interpreter before the run (hooks, limits).
 	Setup func(in *symgo.Interp) `json:"-"`
 }
@@ -147,7 +148,11 @@ func runOne(p *symgo.Program, cfg Config, opt RunOpts) (o Outcome) {
 	if cfg.Setup != nil {
 		cfg.Setup(in)
 	}
-	fn := p.Func(opt.Pkg, cfg.Func)
+	pkg := opt.Pkg
+	if cfg.Harness != nil {
+		pkg = cfg.Harness.Pkg
+	}
+	fn := p.Func(pkg, cfg.Func)
 	if fn == nil {
 		o.Err = "harness function not found: " + cfg.Func
 		return
